@@ -1,6 +1,6 @@
 """C10 — built-in type selection can represent every value the schema admits (table clauses)."""
 import re
-from lib import (norm_arm, walk, nodes, ends, src, psrc, outcome, contains_node, pat_top_variants, short, calls_in, block_last,
+from lib import (Canon, norm_arm, walk, nodes, ends, src, psrc, outcome, contains_node, pat_top_variants, short, calls_in, block_last,
                  strip_refs, guards, gtext)
 
 EXPLANATION = (
@@ -61,6 +61,19 @@ def run(facts, rep, tier):
         rep.ob("C10.D1", "format-known:%s" % f, f in seen_fmt, "format %s has a row" % f)
     rep.sample({"rule": "C10.D1", "rows": [src(r) for r in rows[:3]]})
 
+    # the locals that hold the effective inclusive bounds: (min, max, multiple) = .. minimum/maximum ..
+    cnh = Canon(c, h, 3)
+    MIN = MAX = None
+    for n, _ in nodes(h["body"], "let"):
+        if n["pat"].get("k") == "tuple" and len(n["pat"]["pats"]) == 3 and n.get("init") is not None:
+            s0 = cnh.r(n["init"])
+            if "exclusive_minimum" in s0 and "exclusive_maximum" in s0:
+                names3 = [p_.get("name") for p_ in n["pat"]["pats"]]
+                MIN, MAX = names3[0], names3[1]
+    rep.floor("C10.D3", "locals holding the effective bounds", (1 if MIN else 0) + (1 if MAX else 0), 2)
+    MIN = MIN or "min"
+    MAX = MAX or "max"
+
     # ------------------------------------------------------------ D2 / D3
     closures = []
     for n, anc in nodes(h["body"], "closure"):
@@ -74,8 +87,8 @@ def run(facts, rep, tier):
         names = [p["name"] if p.get("k") == "bind" else None for p in pats]
         meth = par.get("name") if par.get("k") == "mcall" else "?"
         # the match arm this search sits in, for the key
-        arm = [g for g in guards(anc, clo) if g[0] == "arm" and "min" in g[3] and "max" in g[3]]
-        cell = arm[-1][1].replace(" ", "") if arm else meth
+        arm = [g for g in guards(anc, clo) if g[0] == "arm" and MIN in g[3] and MAX in g[3]]
+        cell = re.sub(r"\b[a-z_][a-z0-9_]*\b", lambda m_: m_.group(0) if m_.group(0) in ("Some", "None") else "_", arm[-1][1].replace(" ", "")) if arm else meth
         body = clo["body"]
         returns_type = names[1] is not None and reads(body, names[1]) or (names[2] is not None and reads(body, names[2]))
         if meth == "find_map" or returns_type:
@@ -89,7 +102,14 @@ def run(facts, rep, tier):
                 for x, xa in walk(body):
                     if x.get("k") == "path" and x.get("res") == "local" and x["path"] == names[2]:
                         conds = [g for g in guards(xa, x) if g[0] == "if"]
-                        ok = any(re.search(r"\(min Eq 1\.?0?\)|min Eq Some\(1", g[1]) for g in conds)
+                        # the name bound to the lower bound inside this arm's pattern
+                        lo_names = {MIN}
+                        for a_ in anc:
+                            if a_.get("k") is None and "pat" in a_ and a_["pat"].get("k") == "tuple" and len(a_["pat"]["pats"]) == 2:
+                                for b_, _ in walk(a_["pat"]["pats"][0]):
+                                    if b_.get("k") == "bind":
+                                        lo_names.add(b_["name"])
+                        ok = any(re.search(r"\((%s) Eq 1\.?0?\)|(%s) Eq Some\(1" % ("|".join(map(re.escape, lo_names)), "|".join(map(re.escape, lo_names))), g[1]) for g in conds)
                         rep.ob("C10.D3", "nonzero-needs-min-1:%s" % cell, ok, "NonZero column used under `%s`" % (conds[-1][1] if conds else "no condition"), clo.get("sp"))
     # the by-format lookup
     finds = [(clo, par) for (clo, par, anc) in closures if par.get("name") == "find"]
@@ -115,7 +135,7 @@ def run(facts, rep, tier):
                         ok = a in conds and b in conds
                         rep.ob("C10.D2", "format-row-returned-under-both-tests#%d" % i, ok, "returned under `%s`" % conds[:100], x.get("sp"))
                         if nm[2] and nm[2] in src(x):
-                            rep.ob("C10.D3", "nonzero-needs-min-1:by-format", bool(re.search(r"min Eq Some\(1", conds)), "NonZero type returned under `%s`" % conds[:100], x.get("sp"))
+                            rep.ob("C10.D3", "nonzero-needs-min-1:by-format", bool(re.search(r"%s Eq Some\(1" % re.escape(MIN), conds)), "NonZero type returned under `%s`" % conds[:100], x.get("sp"))
                     rep.floor("C10.D2", "returns on the by-format path", len(rets), 2)
                     # D5a
                     errs = [x for x, _ in nodes(n["then"], "if") if outcome(x["then"]) == "ret-err"]
@@ -199,12 +219,14 @@ def run(facts, rep, tier):
     for which, op, comb in (("min", "Add", "max"), ("max", "Sub", "min")):
         found = None
         for n, _ in nodes(h["body"], "let"):
-            if n["pat"].get("k") == "bind" and n["pat"]["name"] == which and n.get("init", {}).get("k") == "match" and n["init"]["scrut"].get("k") == "tup":
-                found = n["init"]
+            if n["pat"].get("k") == "bind" and n.get("init", {}).get("k") == "match" and n["init"]["scrut"].get("k") == "tup":
+                sc0 = cnh.r(n["init"]["scrut"])
+                if re.fullmatch(r"\(\S*\.%simum, \S*\.exclusive_%simum\)" % (which, which), sc0):
+                    found = n["init"]
         if not rep.floor("C10.D6", "%s computed from inclusive/exclusive bounds" % which, 1 if found else 0, 1):
             continue
-        sc = src(found["scrut"])
-        okscr = ("imum" in sc and "exclusive_%simum" % which in sc)
+        sc = cnh.r(found["scrut"])
+        okscr = bool(re.fullmatch(r"\(\S*\.%simum, \S*\.exclusive_%simum\)" % (which, which), sc))
         arms = {}
         for a in found["arms"]:
             pk, g, b = norm_arm(a)
